@@ -34,6 +34,9 @@ Next ==
        [] e.ev = "fresh.read" ->  \* every key was incremented once by each of g goroutines, all for the first time
             /\ Check(e.got = e.expected, l, "per-status-code totals lost events when several goroutines used a new code at once")
             /\ UNCHANGED acc
+       [] e.ev = "gauge.free" ->  \* rounds of g decrements and g increments from 2g goroutines in free order, gauge read afterwards
+            /\ Check(e.bad = 0, l, "worker gauge not back at its starting value after equal numbers of concurrent increments and decrements")
+            /\ UNCHANGED acc
        [] OTHER -> UNCHANGED acc
   /\ l' = l + 1
 
